@@ -336,7 +336,7 @@ def run_case(case):
             row["fallback_scan"] = {"exact_exists": exists, "points": npts}
             if exists:
                 fb_mech = "template-fallback-where-exact-matching-exists"
-                if vw < 0.05 and (m.get("n_hybr_failed") or 0) > 0:
+                if vw < 0.1 and (m.get("n_hybr_failed") or 0) > 0:
                     # the slow-wall family of the known findings: the 2x2 solves fail inside
                     # the v+ bracket (equations O(v_w^2) in absolute form, NaN template guess
                     # at small v+); since the repairs 6c2cf41/60b6410 a failure at the root
